@@ -121,19 +121,17 @@ def run(ctx, rep):
                   key(f, None, "the try body is the callback invocation"), f, t)
     cs = wrappers["call_strategy_error_handling"]
     cfg = ctx.cfg(cs)
-    ok = True
-    for n in cfg.live_nodes():
-        if n.kind == "except":
-            r = cfg.reachable(n.id)
-            rets = [cfg.nodes[x] for x in r if cfg.nodes[x].kind == "return"]
-            ok = ok and bool(rets) and all(utext(x.ast.value) == "False" for x in rets)
-            ok = ok and (cfg.exit not in r or all(
-                cfg.nodes[p].kind == "return" for lab, p in cfg.nodes[cfg.exit].pred if p in r))
-    rep.check(ok, "R2", key(cs, None, "returns False after a contained exception (process_* is then skipped)"), cs)
-    tr = walk_nodes(cs.node.body, ast.Try)[0]
-    rep.check(isinstance(tr.body[0], ast.Return) and isinstance(tr.body[0].value, ast.Call)
-              and utext(tr.body[0].value.func) == cs.params[0], "R2",
-              key(cs, None, "returns the callback's own result otherwise"), cs)
+    from sa.kinds import folded_returns
+    # what the wrapper returns, path by path (a result variable and an early return read the same): False on
+    # every path that went through a handler, the callback's own result otherwise
+    rets = folded_returns(cfg, cs, lambda e: None, follow_exc=True, tag_exc=True)
+    after_exc = {t for t, exc in rets if exc}
+    normal = {t for t, exc in rets if not exc}
+    rep.check(after_exc == {"False"}, "R2",
+              key(cs, None, "returns False after a contained exception (process_* is then skipped)"), cs, None, str(sorted(after_exc)))
+    call_txt = [t for t in normal if t.startswith("%s(" % cs.params[0])]
+    rep.check(len(normal) == 1 and len(call_txt) == 1, "R2",
+              key(cs, None, "returns the callback's own result otherwise"), cs, None, str(sorted(normal)))
 
     # ------------------------------------------------------------------ R3 dispatch loops
     for q in ("BaseFlumine._process_market_books", "FlumineSimulation._process_market_books"):
